@@ -162,17 +162,17 @@ func (n *ambassador) callback(tx dag.Transaction, payload []byte) error {
 	}
 
 	// Unmarshal the next/new proposed version of the DID Document
-	var nextDIDDocument did.Document
-	if err := json.Unmarshal(payload, &nextDIDDocument); err != nil {
+	parsedDocument, err := resolver.UnmarshalDocument(payload)
+	if err != nil {
 		return fmt.Errorf("unable to unmarshal DID document from network payload: %w", err)
 	}
+	nextDIDDocument := *parsedDocument
 
 	if err := NetworkDocumentValidator().Validate(nextDIDDocument); err != nil {
 		return fmt.Errorf("callback could not process new DID Document, DID Document integrity check failed: %w", err)
 	}
 
 	// update documents
-	var err error
 	if n.isUpdate(tx) {
 		err = n.handleUpdateDIDDocument(tx, nextDIDDocument)
 	} else {
